@@ -92,6 +92,7 @@ type Stats struct {
 	Obs        map[uint64]int64    `json:"obs"` // distinct observation hashes -> count
 	ObsSample  map[uint64]string   `json:"obs_sample"`
 	Fails      map[string]*FailRec `json:"fails"`
+	Notes      map[string]*FailRec `json:"notes"`
 	First      *SchedRec           `json:"first,omitempty"`
 	Last       *SchedRec           `json:"last,omitempty"`
 	Err        string              `json:"err,omitempty"`
@@ -99,7 +100,7 @@ type Stats struct {
 }
 
 func newStats() *Stats {
-	return &Stats{Ends: map[string]int64{}, Obs: map[uint64]int64{}, ObsSample: map[uint64]string{}, Fails: map[string]*FailRec{}, MinPoints: 1 << 30}
+	return &Stats{Ends: map[string]int64{}, Obs: map[uint64]int64{}, ObsSample: map[uint64]string{}, Fails: map[string]*FailRec{}, Notes: map[string]*FailRec{}, MinPoints: 1 << 30}
 }
 
 func hash64(s string) uint64 {
@@ -160,16 +161,22 @@ func (s *Stats) account(cfg string, bound int, res *Result) {
 	if s.Last == nil || lexLess(s.Last.Choices, ch) {
 		s.Last = rec
 	}
-	for _, f := range res.Fails {
-		fr := s.Fails[f.Key]
+	add := func(m map[string]*FailRec, f Fail) {
+		fr := m[f.Key]
 		if fr == nil {
 			fr = &FailRec{Key: f.Key}
-			s.Fails[f.Key] = fr
+			m[f.Key] = fr
 		}
 		fr.Count++
 		if fr.Choices == nil || lessChoices(ch, fr.Choices) {
 			fr.Msg, fr.Config, fr.Bound, fr.Choices, fr.End, fr.Obs, fr.Log, fr.Blocked = f.Msg, cfg, bound, ch, res.End.String(), res.Obs, res.Log, res.Blocked
 		}
+	}
+	for _, f := range res.Fails {
+		add(s.Fails, f)
+	}
+	for _, f := range res.Notes {
+		add(s.Notes, f)
 	}
 }
 
@@ -211,17 +218,21 @@ func (s *Stats) merge(o *Stats) {
 	if o.Last != nil && (s.Last == nil || lexLess(s.Last.Choices, o.Last.Choices)) {
 		s.Last = o.Last
 	}
-	for k, f := range o.Fails {
-		if g := s.Fails[k]; g == nil {
-			s.Fails[k] = f
-		} else {
-			n := g.Count + f.Count
-			if lessChoices(f.Choices, g.Choices) {
-				s.Fails[k] = f
+	mergeRecs := func(dst, src map[string]*FailRec) {
+		for k, f := range src {
+			if g := dst[k]; g == nil {
+				dst[k] = f
+			} else {
+				n := g.Count + f.Count
+				if lessChoices(f.Choices, g.Choices) {
+					dst[k] = f
+				}
+				dst[k].Count = n
 			}
-			s.Fails[k].Count = n
 		}
 	}
+	mergeRecs(s.Fails, o.Fails)
+	mergeRecs(s.Notes, o.Notes)
 	if o.Err != "" && s.Err == "" {
 		s.Err = o.Err
 	}
